@@ -163,4 +163,20 @@ def insertBoNo (x : V × Int × Int) : List (V × Int × Int) → List (V × Int
 /-- `sort_bo_no`: ascending BO, then NO -/
 def sortBoNo (tags : List (V × Int × Int)) : List V := (tags.foldr insertBoNo []).map (·.1)
 
+/-- `SO` / `SN` of a node as `order_gfa` reads them from the S line -/
+def soOf (t : GfaFile) (v : V) : Option Int := (t.segs.find? (·.id == v)).bind (fun s => tagInt s.tags "SO")
+def snOf (t : GfaFile) (v : V) : Option String := (t.segs.find? (·.id == v)).bind (fun s => tagVal s.tags "SN")
+
+/-- the component `name_comps` files under a chromosome name -/
+def compOfName (t : GfaFile) (lm : Bool) (c : String) : List V :=
+  let g := readGraph t lm
+  let named := nameComps (snOf t) (allComponents (Graph.nbFun g) (Graph.ids g))
+  ((named.find? (·.1 == c)).map (·.2)).getD []
+
+/-- `run_order_gfa` up to the BO/NO tags it assigns: read the graph, split it into components, name them, then the
+    chromosome loop over `decompose_and_order` -/
+def orderRun (t : GfaFile) (order : List String) (lm : Bool) : Except String (List Written × Int) :=
+  let g := readGraph t lm
+  runOrder (fun c => decompose (Graph.nbFun g) (compOfName t lm c) (soOf t) (snOf t)) order
+
 end Gaftools.Order
